@@ -882,7 +882,15 @@ pub fn walk_after(g: &mut Gen, world: &mut World) -> Option<Op> {
     let d = g.target(m, Tc::NonEmptyDir).or_else(|| if m.children("").is_empty() { None } else { Some(String::new()) })?;
     let descs = m.descendants(&d);
     let mut muts = vec![];
-    for _ in 0..g.rng.range(1, 2) {
+    if g.rng.pct(35) {
+        // every sub-directory that the walk has listed (and queued) disappears before the walk
+        // descends into it: several error items in a row
+        for c in m.children(&d).into_iter().filter(|c| m.is_dir(c)).take(4) {
+            muts.push(Op::RemoveDirAll(P::new(&c)));
+        }
+    }
+    let extra = if muts.is_empty() { g.rng.range(1, 3) } else { g.rng.range(0, 1) };
+    for _ in 0..extra {
         let t = descs[g.rng.below(descs.len())].clone();
         let mu = if m.is_dir(&t) {
             if g.rng.pct(70) {
@@ -895,7 +903,10 @@ pub fn walk_after(g: &mut Gen, world: &mut World) -> Option<Op> {
         };
         muts.push(mu);
     }
-    let op = Op::WalkAfter { p: P::new(&d), muts };
+    // sometimes the entries vanish in the middle of the walk: directories that were already
+    // visited (and queued) fail at descent, not at their metadata call
+    let after = if g.rng.pct(45) { g.rng.range(1, 4) } else { 0 };
+    let op = Op::WalkAfter { p: P::new(&d), muts, after };
     world.apply(&op);
     Some(op)
 }
@@ -1384,11 +1395,14 @@ fn shrink_op(op: &Op) -> Vec<Op> {
                 }
             }
         }
-        Op::WalkAfter { p, muts } => {
+        Op::WalkAfter { p, muts, after } => {
             for i in 0..muts.len() {
                 let mut m2 = muts.clone();
                 m2.remove(i);
-                out.push(Op::WalkAfter { p: p.clone(), muts: m2 });
+                out.push(Op::WalkAfter { p: p.clone(), muts: m2, after: *after });
+            }
+            if *after > 0 {
+                out.push(Op::WalkAfter { p: p.clone(), muts: muts.clone(), after: after - 1 });
             }
         }
         Op::HWrite(s, pl) => {
